@@ -144,7 +144,7 @@ class Ctx:
             print('MACHINERY-FAILURE property=%s (%d problem(s))' % (self.pid, len(self.machinery)))
             for m in self.machinery[:5]:
                 print('    ' + m[:3000].replace('\n', '\n    '))
-            return 2
+            return 1 if nviol else 2
         self.log('states=%d transitions=%d traces=%d evaluations=%d distinct_nontrivial=%d '
                  'skipped_oor=%d violations=%d known=%d wall=%.1fs' % (
                      self.states, self.transitions, self.traces, self.evaluations,
